@@ -1,7 +1,17 @@
 /-
   Tie (C19): operator / binding / collection names, the set of operators whose value is printed and
-  the format strings of the ExpressionDump methods — extracted from grammar/ast.go on this run —
-  agree with the model (Bexpr/Eval/Dump.lean).
+  what the ExpressionDump methods write — extracted from grammar/ast.go on this run — agree with
+  the model (Bexpr/Eval/Dump.lean).
+
+  The fmt format strings themselves (`BexprGen.Tables.dumpFormats`, still extracted for the reader)
+  are deliberately NOT pinned: the same output can be spelled with many format strings
+  (`%[1]s…%[1]s` with inline arguments vs. `%s…%s` with locals).  Pinned instead are the TEMPLATES
+  computed from them (`BexprGen.Tables.dumpTemplates`, xlate/facts_dump.go): the sequence of literal
+  texts, (verb, argument) pairs and recursive dumps each method writes, with argument indices
+  resolved, single-assignment locals inlined and the pieces before / in / after the operator switch
+  of `MatchExpression` put in a row per operator.  `CollectionNameBinding.String` and
+  `Selector.String` are not pinned here (`BexprGen.Tables.selectorString` is informational); their
+  output is compared with the model's `bindingString` / `Selector.render` by the dump harness.
 -/
 import BexprGen.Tables
 import Bexpr.Eval.Dump
@@ -37,17 +47,38 @@ theorem prints_value_set :
     BexprGen.Tables.dumpPrintsValue.length = 4 := by
   decide +kernel
 
-/-- the format strings the model's concatenations were written against -/
-theorem dump_formats :
-    BexprGen.Tables.dumpFormats =
-      [("UnaryExpression", "%s%s {\n"), ("UnaryExpression", "%s}\n"),
-       ("BinaryExpression", "%s%s {\n"), ("BinaryExpression", "%s}\n"),
-       ("MatchExpression", "%[1]s%[3]s {\n%[2]sSelector: %[4]v\n%[2]sValue: %[5]q\n%[1]s}\n"),
-       ("MatchExpression", "%[1]s%[3]s {\n%[2]sSelector: %[4]v\n%[1]s}\n"),
-       ("CollectionNameBinding", "%v (%s)"), ("CollectionNameBinding", "%v (%s)"),
-       ("CollectionNameBinding", "%v (%s)"), ("CollectionNameBinding", "%v (%s, %s)"),
-       ("CollectionNameBinding", "UNKNOWN (%s, %s, %s)"),
-       ("CollectionExpression", "%s%s %s on %v {\n"), ("CollectionExpression", "%s}\n")] := by
+/-! ### what the ExpressionDump methods write -/
+
+def templateOf (k : String) : Option (List String) :=
+  (BexprGen.Tables.dumpTemplates.find? (·.1 == k)).map (·.2)
+
+/-- `repeatStr indent level` / `repeatStr indent (level + 1)` of the model -/
+def li : String := "%s:strings.Repeat(indent, level)"
+def li1 : String := "%s:strings.Repeat(indent, level+1)"
+
+/-- the template of the model's `.match_` case: header, selector line, value line (quoted with
+    `%q` = `Strconv.quote`) for the operators that print their value, closing brace -/
+def matchTemplate (withValue : Bool) : List String :=
+  [li, "%s:expr.Operator.String()", "text: {\n", li1, "text:Selector: ", "%v:expr.Selector", "text:\n"] ++
+  (if withValue then [li1, "text:Value: ", "%q:expr.Value.Raw", "text:\n"] else []) ++
+  [li, "text:}\n"]
+
+/-- the clause of `MatchExpression.ExpressionDump` that handles an operator: its own, else the default -/
+def matchTemplateOf (op : MatchOp) : Option (List String) :=
+  match templateOf ("MatchExpression/" ++ goName op) with
+  | some t => some t
+  | none => templateOf "MatchExpression/default"
+
+/-- the four ExpressionDump methods write what the model's `dump` concatenates -/
+theorem dump_templates :
+    templateOf "UnaryExpression" =
+      some [li, "%s:expr.Operator.String()", "text: {\n", "dump:expr.Operand", li, "text:}\n"] ∧
+    templateOf "BinaryExpression" =
+      some [li, "%s:expr.Operator.String()", "text: {\n", "dump:expr.Left", "dump:expr.Right", li, "text:}\n"] ∧
+    templateOf "CollectionExpression" =
+      some [li, "%s:expr.Op", "text: ", "%s:expr.NameBinding.String()", "text: on ", "%v:expr.Selector",
+            "text: {\n", "dump:expr.Inner", li, "text:}\n"] ∧
+    MatchOp.all.all (fun op => matchTemplateOf op == some (matchTemplate (printsValue op))) = true := by
   decide +kernel
 
 end Bexpr.Ties.DumpNames
